@@ -11,7 +11,11 @@ const OrdinalsPrefix = "ord"
 
 // Inscribe adds an output to the transaction with an inscription.
 func (tx *Tx) Inscribe(ia *bscript.InscriptionArgs) error {
-	s := *ia.LockingScriptPrefix // deep copy
+	// deep copy: appending to the caller's slice would write into its
+	// backing array when that has spare capacity (e.g. a prefix obtained
+	// from ParseInscription is a sub-slice of the parsed script)
+	s := make(bscript.Script, len(*ia.LockingScriptPrefix))
+	copy(s, *ia.LockingScriptPrefix)
 
 	// add Inscription data
 	// (Example: 	OP_FALSE
